@@ -469,7 +469,7 @@ fn corpus(ctx: &Ctx) -> Vec<Case> {
         ops.push(sc.clone());
         cs.push(Case { n, class: "scan", ops });
     }
-    // RANDOMKEY looks at shard 0 only: one key that does not live there
+    // RANDOMKEY looked at shard 0 only before fix 4d9bd05: one key that does not live there
     let k = p.iter().find(|k| ctx.gen(k, 4) != 0).unwrap();
     cs.push(Case {
         n: 4,
@@ -603,7 +603,7 @@ fn explained(ctx: &Case, c: &Ctx) -> bool {
         x if x.starts_with("two-key") => ctx.ops.iter().any(|o| o.is_two_key() && c.gen(&o.keys[0], n) != c.gen(&o.keys[1], n)),
         "multi-key:MSETNX" => ctx.ops.iter().any(|o| o.name == "MSETNX" && o.keys.iter().any(|k| c.gen(k, n) != c.gen(&o.keys[0], n))),
         "scan" => true,
-        "randomkey" => true,
+        // RANDOMKEY asks every shard since fix 4d9bd05: a difference is no longer expected
         _ => false,
     }
 }
@@ -612,7 +612,6 @@ fn signature(class: &str) -> String {
     match class {
         "mixed-any" => "C03:route-hash-mismatch:fast_set+generic".into(),
         "scan" => "C03:scan-cursor".into(),
-        "randomkey" => "C03:randomkey-shard0".into(),
         x => format!("C03:{}", x),
     }
 }
